@@ -197,7 +197,8 @@ fn c12_hasher_flow() {
         // a HashCache value that is never used (get/put are stubbed, key() does not touch it) and never dropped
         let mut c = std::mem::MaybeUninit::<HashCache>::uninit();
         unsafe { std::ptr::write_bytes(c.as_mut_ptr(), 1, 1) };
-        hasher.cache = Some(unsafe { c.assume_init() });
+        // ptr::write: a plain assignment would drop the old value, and Option<HashCache>'s drop glue (sled) makes Kani crash
+        unsafe { std::ptr::write(&mut hasher.cache, Some(c.assume_init())) };
     }
     let path = p1(b"f");
     let chunk = FileChunk::new(&path, FilePos(unsafe { CHUNK_POS }), FileLen(unsafe { CHUNK_LEN }));
